@@ -1,5 +1,7 @@
 """C04 - answers do not depend on which positions were queried before.
 
+M-spec  spec/Memo.tla (the region tables and their memoisation; region graphs of real analysis objects, every query
+        order explored by TLC; the variant without the context test must fail; fresh tables compared with the code)
 R-spec  spec/History.tla (query orders enumerated by TLC) + spec/HistoryCheck.tla (trace judge)
 Each order is replayed on ONE analysis object of the real code (Flow.names_at on the read sites, the internal entry
 point lint / assist / location / evaluate all go through); every site is also asked of a fresh analysis that has
@@ -69,6 +71,101 @@ def real_file_sites(path, rng, limit):
     return src, [list(x) for x in names]
 
 
+LOOPY = [
+    'for i in xs:\n    if i:\n        print(a)\n    a = 1\n',
+    'def f(xs):\n    for i in xs:\n        for j in i:\n            if j:\n                print(a, b)\n            b = 2\n        a = 1\n    return a\n',
+    'a = 0\nwhile a:\n    if a:\n        b = a\n    else:\n        a = b\n    for a in b:\n        c = a\nprint(a, b, c)\n',
+    'def f(xs):\n    while xs:\n        def g():\n            return a\n        a = 1\n    return g\n',
+    'for a in b:\n    for b in a:\n        pass\n    else:\n        a = 2\nelse:\n    b = 1\nprint(a, b)\n',
+    'def f(c):\n    while c:\n        try:\n            a = c\n        finally:\n            for b in a:\n                c = b\n    return a, b, c\n',
+]
+
+
+def memo_level(ck, jobs, wd, thorough, rng):
+    """mechanism level (spec/Memo.tla): the region graphs of real analysis objects, every query order explored by TLC"""
+    texts = [[i, s] for i, s in enumerate(LOOPY)]
+    pick = [j for j in jobs if 'for ' in j['source'] or 'while ' in j['source']]
+    rng.shuffle(pick)
+    for j in pick[:(1200 if thorough else 150)]:
+        texts.append([len(texts), j['source']])
+    n = core.NCPU
+    chunks = [c for c in (texts[i::n] for i in range(n)) if c]
+
+    def extract(chunk):
+        p = core.run_repo_python(['-m', 'vlib.drivers.memo_worker'], inp=json.dumps({'texts': chunk, 'names': ['a', 'b', 'c', 'd', 'x', 'y'], 'max_regions': 14 if thorough else 12}).encode(), timeout=3000)
+        if p.returncode != 0:
+            raise core.MachineryFailure('memo worker failed: %s' % p.stderr.decode(errors='replace')[-2000:])
+        return json.loads(p.stdout.decode())
+    graphs = []
+    with ThreadPoolExecutor(max_workers=len(chunks)) as ex:
+        for r in ex.map(extract, chunks):
+            graphs.extend(r)
+    # distinct graphs only
+    seen, uniq = set(), []
+    for g in graphs:
+        k = json.dumps(g['regions'], sort_keys=True)
+        if k not in seen:
+            seen.add(k)
+            uniq.append(g)
+    uniq.sort(key=lambda g: json.dumps(g['regions'], sort_keys=True))
+    if not thorough:
+        uniq = uniq[:6] + rng.sample(uniq[6:], min(len(uniq) - 6, 250)) if len(uniq) > 6 else uniq
+    for i, g in enumerate(uniq):
+        g['id'] = i
+    if len(uniq) < 20:
+        raise core.MachineryFailure('only %d region graphs with a loop and a binding were extracted' % len(uniq))
+    cfg_t = os.path.join(wd, 'memo_t.cfg')
+    cfg_f = os.path.join(wd, 'memo_f.cfg')
+    open(cfg_t, 'w').write('SPECIFICATION MSpec\nCONSTANT Contextual = TRUE\nINVARIANT HistoryIndependent\nINVARIANT EmitFresh\nCHECK_DEADLOCK FALSE\n')
+    open(cfg_f, 'w').write('SPECIFICATION MSpec\nCONSTANT Contextual = FALSE\nINVARIANT HistoryIndependent\nCHECK_DEADLOCK FALSE\n')
+    shards = [c for c in (uniq[i::n] for i in range(n)) if c]
+
+    def model(ic):
+        i, chunk = ic
+        f = os.path.join(wd, 'memo-%d.json' % i)
+        json.dump([{'id': g['id'], 'regions': g['regions']} for g in chunk], open(f, 'w'))
+        return core.tlc('Memo', cfg_t, env={'VERIF_CASES': f}, workdir=wd, timeout=3000)
+    with ThreadPoolExecutor(max_workers=len(shards) + 1) as ex:
+        fguard = ex.submit(lambda: core.tlc('Memo', cfg_f, env={'VERIF_CASES': write_json(os.path.join(wd, 'memo-g.json'),
+                                                                                              [{'id': g['id'], 'regions': g['regions']} for g in uniq[:40]])},
+                                            workdir=wd, timeout=3000))
+        results = list(ex.map(model, enumerate(shards)))
+        guard = fguard.result()
+    if guard.invariant != 'HistoryIndependent':
+        raise core.MachineryFailure('vacuity guard: Memo.tla without the context test no longer violates HistoryIndependent')
+    byid = {g['id']: g for g in uniq}
+    drift = 0
+    sample = None
+    nfresh = 0
+    for r in results:
+        if r.error:
+            raise core.MachineryFailure('Memo.tla failed: %s\n%s' % (r.error, r.out[-1500:]))
+        if r.invariant:
+            # the model of the repaired mechanism is order dependent on a real region graph: a design-level defect of the memo
+            raise core.MachineryFailure('Memo.tla (Contextual = TRUE) violates %s on a real region graph\n%s' % (r.invariant, r.out[-3000:]))
+        for rec in r.records:
+            if isinstance(rec, dict) and 'fresh' in rec:
+                g = byid[rec['gid']]
+                for i, row in enumerate(rec['fresh']):
+                    nfresh += 1
+                    if sorted(row['n']) != g['real'][i][0] or sorted(row['p']) != g['real'][i][1]:
+                        drift += 1
+                        if sample is None:
+                            sample = {'source': g['source'], 'name': g['name'], 'region': i + 1, 'model': row, 'real': g['real'][i]}
+    ck.add_tlc(results + [guard])
+    ck.drift += drift
+    ck.extra['memo_region_graphs'] = len(uniq)
+    ck.extra['memo_fresh_tables_compared'] = nfresh
+    if sample:
+        ck.extra['memo_drift_sample'] = sample
+
+
+def write_json(path, obj):
+    with open(path, 'w') as fd:
+        json.dump(obj, fd)
+    return path
+
+
 def run(tier, replay=None):
     ck = core.Check('C04', tier)
     seed = core.seed()
@@ -135,6 +232,8 @@ def run(tier, replay=None):
                     continue
                 jobs.append({'id': len(jobs), 'source': r[0], 'filename': f, 'sites': r[1],
                              'orders': big_orders(len(r[1]), rng, 3 if not thorough else 8), 'kind': 'file'})
+        if not replay:
+            memo_level(ck, [j for j in jobs if j['kind'] in ('generated', 'scopes')], wd, thorough, rng)
         results = run_workers(jobs)
         byid = {r['id']: r for r in results}
         cases = []
